@@ -28,16 +28,19 @@ class SmtSys:
     """snap = (root, db, proof) with proof = None | (key, value, branch tuple)"""
 
     def __init__(self, *, key_size=1, default=b"", keys=("00", "01", "80", "81", "40"), values=("a", "bb", ""), seed=0, props=("C14",),
-                 track=None, forms=("m",), truncations=True, probes=("ff", "02"), quiet=0):
+                 track=None, forms=("m",), truncations=True, probes=("ff", "02"), quiet=0, chain=0):
         self.kw = dict(key_size=key_size, default=default.hex(), keys=list(keys), values=list(values), seed=seed, props=sorted(props),
-                       track=track, forms=list(forms), truncations=truncations, probes=list(probes), quiet=quiet)
+                       track=track, forms=list(forms), truncations=truncations, probes=list(probes), quiet=quiet, chain=chain)
         self.quiet = quiet
+        self.chain = chain
+        self.many_events = bool(chain)
         self.key_size = key_size
         self.default = default
         fill = 0 if seed == 0 else (seed * 7919) % 90
         self.keys = [bytes.fromhex(k) for k in keys]
         self.probes = self.keys + [bytes.fromhex(p) for p in probes if len(bytes.fromhex(p)) == key_size and bytes.fromhex(p) not in self.keys]
-        self.vals = [bytes((c + fill) % 256 or 1 for c in v.encode()) for v in values]
+        special = {"x64": b"N" * 64, "h32": b"H" * 32}
+        self.vals = [special[v] if v in special else bytes((c + fill) % 256 or 1 for c in v.encode()) for v in values]
         self.props = set(props)
         self.track = bytes.fromhex(track) if track is not None else None
         self.forms = tuple(forms)
@@ -82,6 +85,10 @@ class SmtSys:
         evs = [("op", op, f) for op in self.ops for f in self.forms]
         if self.track is not None and snap[2] is None and self.ref.val(model, self.track) != b"":
             evs.append(("track",))
+        if self.chain and snap[2] is None:
+            import itertools
+            for seq in itertools.product(self.ops, repeat=self.chain):
+                evs.append(("chain",) + seq)
         if self.quiet and snap[2] is not None:
             # k updates streamed to the SAME proof object with no observation of the proof in between
             import itertools
@@ -120,13 +127,33 @@ class SmtSys:
         if ev[0] == "track":
             k = self.track
             try:
-                p = SparseMerkleProof(k, t.get(k), t.branch(k))
+                handed = list(t.branch(k))
+                p = SparseMerkleProof(k, t.get(k), handed)
+                handed[0] = b"\xee" * 32  # the caller goes on to modify ITS list: the proof must not notice
+                handed.append(b"junk")
             except Exception as e:  # noqa
                 viols.append(V("C15", "proof_creation_raised", f"creating a proof from the tree's value and branch raised {type(e).__name__}", exc=repr(e)[:120]))
                 return Step(None, model, viols)
             post = (snap[0], snap[1], self.psnap(p))
             viols += self.proof_in_sync(p, model, snap[0], "track")
             return Step(post, model, viols)
+        if ev[0] == "chain":
+            # several operations on ONE live tree object; reads through the same object after each
+            m2 = model
+            for op in ev[1:]:
+                m2, v = self.model_step(m2, op)
+                try:
+                    ret = self.apply(t, op, "m")
+                except Exception as e:  # noqa
+                    viols.append(V("C14", "op_raised", f"{op[0]} raised {type(e).__name__}", event="chain", exc=repr(e)[:120]))
+                    return Step(None, m2, viols)
+                if t.root_hash != self.ref.root(m2) or tuple(ret) != self.ref.walk(m2, op[1])[1]:
+                    viols.append(V("C14", "root_wrong", "root / returned hashes wrong in a chain of operations on one live tree", event="chain", model=m2))
+                    return Step(None, m2, viols)
+                bad = self._probe_same(t, m2, "chain_same_object")
+                if bad:
+                    return Step(None, m2, [bad])
+            return Step((t.root_hash, dict(t.db), None), m2, viols)
         if ev[0] == "quiet":
             m2 = model
             try:
@@ -304,7 +331,7 @@ class SmtSys:
         if ev[0] == "track":
             live["p"] = SparseMerkleProof(self.track, t.get(self.track), t.branch(self.track))
             return
-        if ev[0] == "quiet":
+        if ev[0] in ("quiet", "chain"):
             for op in ev[1:]:
                 self.live_apply(live, ("op", op, "m"))
             return
